@@ -432,6 +432,16 @@ class Pointwise(Interp):
         return Unknown(f"{n}(...)")
 
     def call_builtin(self, name, args, kwargs, node):
+        if name == "len" and len(args) == 1 and isinstance(args[0], LabelSeq):
+            # number of labels of that side: at least one if the generic voxel carries a label of it
+            # (then max >= 1), otherwise unknown (>= 0)
+            seq = args[0]
+            nv = self.root.__dict__.setdefault("_len_vars", {})
+            key = id(seq)
+            if key not in nv:
+                nv[key] = Poly.var(f"nlab{len(nv)}")
+            t, _ = decide_cmp(">=", seq.max_value.poly, Poly.const(1), True)
+            return PV((Poly.const(1) if t is True else Poly()) + nv[key], "py", "py")
         if name in ("max", "min") and args and isinstance(args[0], LabelSeq):
             return args[0].max_value if name == "max" else Unknown("min of labels")
         if name == "int" and args and isinstance(args[0], PV):
